@@ -376,3 +376,49 @@ Proof. vm_compute. reflexivity. Qed.
 Example C07_null_values : value_of VNullBulk <> value_of (VBulk []) /\
   shape (value_of VNullBulk) TBulk = shape (value_of (VBulk [])) TBulk.
 Proof. split; [discriminate|reflexivity]. Qed.
+
+(* ------------------------------------------------------------------ the full statement and why it is refuted
+   Without the exclusion of the recorded finding classes the statement is false on the model of
+   the code: each witness below, replayed on the implementation, is one of the findings of
+   known/resp.json (D14, R1, D15/D16). *)
+Definition C07_statement : Prop := forall cv cc cs tc ts, wf_conv cv = true ->
+  concat cc = enc_cmds cv -> concat cs = enc_replies cv ->
+  exists items, dissect_pair (mkin cc tc) (mkin cs ts) = (OErr (tail_err tc), OErr (tail_err ts), items, 0)
+                /\ map item_view items = map Some (report cv).
+
+Definition get_k : cmd := (bs [71;69;84]%N, [bs [107]%N]).
+Definition witness_keyword : conversation := [(get_k, VSimple (bs [70;79;79]%N))].            (* +FOO *)
+Definition witness_null : conversation := [(get_k, VNullBulk)].                              (* $-1 *)
+Definition witness_array : conversation := [(get_k, VArray [VBulk (bs [97]%N); VBulk (bs [98]%N)])].
+
+Lemma refute_with (cv : conversation) : wf_conv cv = true ->
+  (forall items, dissect_pair (mkin [enc_cmds cv] TEof) (mkin [enc_replies cv] TEof) = (OErr EEOF, OErr EEOF, items, 0) ->
+                 map item_view items = map Some (report cv) -> False) ->
+  ~ C07_statement.
+Proof.
+  intros Hw Hno H. destruct (H cv [enc_cmds cv] [enc_replies cv] TEof TEof Hw) as (items & H1 & H2).
+  - cbn [concat]. apply app_nil_r.
+  - cbn [concat]. apply app_nil_r.
+  - exact (Hno items H1 H2).
+Qed.
+
+(* D14: a legal status reply outside the keyword table stops the server half *)
+Theorem C07_refuted : ~ C07_statement.
+Proof.
+  apply (refute_with witness_keyword); [vm_compute; reflexivity|].
+  intros items H _. vm_compute in H. discriminate.
+Qed.
+
+(* R1: a null bulk string is reported as a bulk string *)
+Theorem C07_refuted_null : ~ C07_statement.
+Proof.
+  apply (refute_with witness_null); [vm_compute; reflexivity|].
+  intros items H Hv. vm_compute in H. inversion H. subst items. vm_compute in Hv. discriminate.
+Qed.
+
+(* D16: a reply array of bulk strings is validated as a command and stops the server half *)
+Theorem C07_refuted_array : ~ C07_statement.
+Proof.
+  apply (refute_with witness_array); [vm_compute; reflexivity|].
+  intros items H _. vm_compute in H. discriminate.
+Qed.
